@@ -460,9 +460,9 @@ def _cause(net, reg, case, e):
     if where == "IndexError@grid_equivalents/rei_generation.py:_create_net_zpbn":
         # an REI bus of a kind (gen/load) is created for ext_grids / motors, but net[kind] has no row at an external bus
         gen_like = len(_at(net, "ext_grid", E)) or len(_at(net, "xward", E))
-        if gen_like and len(net.gen) and not net.gen.bus.isin(E).any():
+        if gen_like and not (len(net.gen) and net.gen.bus.isin(E).any()):
             return "rei-kind-without-original-element/gen"
-        if len(_at(net, "motor", E)) and len(net.load) and not net.load.bus.isin(E).any():
+        if len(_at(net, "motor", E)) and not (len(net.load) and net.load.bus.isin(E).any()):
             return "rei-kind-without-original-element/load"
     if where == "ValueError@grid_equivalents/auxiliary.py:add_ext_grids_to_boundaries" and len(net.gen):
         # vm_pu of the auxiliary ext_grids: in-service gens at boundary buses vs. gens that are not a duplicate of ANY earlier gen
